@@ -29,7 +29,9 @@ pub fn read_filter_block(
             "no filter block in empty location",
         );
     }
-    let buf = read_bytes(src, location)?;
+    // The filter block is stored like any other block, followed by a compression type byte and a
+    // checksum; verify it instead of trusting the raw bytes.
+    let buf = read_block_contents(src, location)?;
     Ok(FilterBlockReader::new_owned(policy, buf))
 }
 
@@ -41,6 +43,11 @@ pub fn read_table_block(
     f: &dyn RandomAccess,
     location: &BlockHandle,
 ) -> Result<Block> {
+    Ok(Block::new(opt, read_block_contents(f, location)?))
+}
+
+/// Reads the block at `location`, verifies its checksum and decompresses it if necessary.
+fn read_block_contents(f: &dyn RandomAccess, location: &BlockHandle) -> Result<Vec<u8>> {
     // The block is denoted by offset and length in BlockHandle. A block in an encoded
     // table is followed by 1B compression type and 4B checksum.
     // The checksum refers to the compressed contents.
@@ -69,10 +76,10 @@ pub fn read_table_block(
 
     if let Some(ctype) = options::int_to_compressiontype(compress[0] as u32) {
         match ctype {
-            CompressionType::CompressionNone => Ok(Block::new(opt, buf)),
+            CompressionType::CompressionNone => Ok(buf),
             CompressionType::CompressionSnappy => {
                 let decoded = Decoder::new().decompress_vec(&buf)?;
-                Ok(Block::new(opt, decoded))
+                Ok(decoded)
             }
         }
     } else {
